@@ -230,4 +230,118 @@ theorem parseOperators_norm (m : ModelT) (rcs : List Reader.RCode) (base : Nat) 
         rw [parseOperators_norm m rcs base all ps os h2 (k + 1) r.2.1]
         rfl
 
+
+theorem opFacts_of (m : ModelT) (codes : List Code) (rcs : List Reader.RCode) (all : List Nat) (p : POp) (o : OperatorT)
+    (hser : serialiseOperator codes all p = .ok o) (hok : p.info.tableOk = true) (hinv : p.info.inv.isSome = true)
+    (hcodes : ∀ (i : Nat) c, codes[i]? = some c → ∃ oc, m.opcodes[i]? = some oc ∧ serialiseOpCode c = .ok oc)
+    (hrcs : ∀ (i : Nat) oc, m.opcodes[i]? = some oc → ∃ rc, rcs[i]? = some rc ∧ Reader.parseOpCode oc = .ok rc) :
+    OpFacts m rcs all p o := by
+  obtain ⟨s1, s2, s3, s4, _, _⟩ := serialiseOperator_ok _ _ _ _ hser
+  obtain ⟨c, c1, c2, c3, c4⟩ := opcodeIndex_ok _ _ _ s4
+  obtain ⟨oc, oc1, oc2⟩ := hcodes _ c c1
+  obtain ⟨rc, r1, r2, r3⟩ := rcode_of_written p c oc hok (mem_of_tableOk _ hok) c2 c3 c4 oc2
+  obtain ⟨rc', q1, q2⟩ := hrcs _ oc oc1
+  rw [r1] at q2
+  obtain rfl := Except.ok.inj q2
+  refine ⟨s1, s2, s3, ⟨rc, q1, r2, r3⟩, ?_⟩
+  intro rc2 hrc2
+  rw [r2] at hrc2
+  obtain rfl := Option.some.inj hrc2
+  obtain ⟨x, hx⟩ := Option.isSome_iff_exists.mp hinv
+  obtain ⟨tf, ser, wt⟩ := x
+  have hs : rc.hasSer = ser := by
+    unfold rcodeOf at r2
+    simp only [hx] at r2
+    obtain ⟨op, _, rfl⟩ := Option.map_eq_some_iff.mp r2
+    rfl
+  unfold serialiseOperator at hser
+  dsimp only at hser
+  obtain ⟨idx, hidx, hser⟩ := bind_ok hser
+  simp only [pure, Except.pure, Except.ok.injEq] at hser
+  subst hser
+  simp only [hx, hs, payloadN, Reader.noPayload]
+
+theorem write_rcodes (d : Desc) (enum : List Code) (m : ModelT) (h : writeWith d enum = .ok m) :
+    ∃ rcs, m.opcodes.mapM Reader.parseOpCode = .ok rcs ∧
+      ∀ (i : Nat) oc, m.opcodes[i]? = some oc → ∃ rc, rcs[i]? = some rc ∧ Reader.parseOpCode oc = .ok rc := by
+  obtain ⟨subs, opcodes, sgs, st, metas, _, h2, _, _, hm⟩ := writeWith_ok d enum m h
+  have ho : m.opcodes = opcodes := by rw [hm]; rfl
+  obtain ⟨hl, hf⟩ := mapM_ok _ _ _ h2
+  have hp : ∀ oc ∈ m.opcodes, ∃ rc, Reader.parseOpCode oc = .ok rc := by
+    intro oc hoc
+    rw [ho] at hoc
+    obtain ⟨i, hi⟩ := List.getElem?_of_mem hoc
+    have hil : i < (sortCodes enum).length := by rw [← hl]; exact (List.getElem?_eq_some_iff.mp hi).1
+    obtain ⟨oc', e1, e2⟩ := hf i _ (List.getElem?_eq_getElem hil)
+    rw [hi] at e1
+    obtain rfl := Option.some.inj e1
+    obtain ⟨info, hinfo⟩ := serialiseOpCode_lookup _ _ e2
+    obtain ⟨rc, _, _, _, r1, _⟩ := opcode_roundtrip _ _ info hinfo e2
+    exact ⟨rc, r1⟩
+  obtain ⟨rcs, hrcs⟩ := mapM_of_pointwise _ _ hp
+  exact ⟨rcs, hrcs, (mapM_ok _ _ _ hrcs).2⟩
+
+
+/-! ## one subgraph -/
+
+theorem ioIndices_idxList (base : Nat) (all : List Nat) (l : List Nat) :
+    Reader.ioIndices base all.length (some (idxList all l)) = .ok ((l.filterMap (indexIn all ·)).map (base + ·)) := by
+  unfold Reader.ioIndices idxList
+  simp only
+  rw [← List.map_filterMap]
+  apply mapM_map_ok
+  intro i hi
+  obtain ⟨g, _, hg⟩ := List.mem_filterMap.mp hi
+  have hil := indexIn_lt all g i hg
+  have : Reader.pyIndex (List.range all.length) (Int.ofNat i) = some i := by
+    unfold Reader.pyIndex
+    simp [hil]
+  simp only [this]
+  rfl
+
+theorem readSubgraph_norm (d : Desc) (m : ModelT) (codes : List Code) (rcs : List Reader.RCode) (ps : PSub) (f : SubGraphT)
+    (hf : SgFacts d m codes ps f)
+    (hrcs : ∀ (i : Nat) oc, m.opcodes[i]? = some oc → ∃ rc, rcs[i]? = some rc ∧ Reader.parseOpCode oc = .ok rc)
+    (ts : List TensorD) :
+    Reader.readSubgraph rcs (m.buffers.map Reader.parseBuffer) ts f = subN d.tensors ts ps := by
+  obtain ⟨outs2, operators, l1, l2, l3, l4, l5, l6, l7⟩ := hf.loc
+  obtain ⟨ol, of⟩ := mapM_ok _ _ _ l2
+  have hF : List.Forall₂ (OpFacts m rcs (sgAll d.tensors ps)) ((sgOps ps).filter (!·.ignored)) f.operators := by
+    rw [l3]
+    apply forall₂_of_getElem?
+    · exact ol.symm
+    · intro j p o hp ho
+      obtain ⟨o', ho', hser⟩ := of j p hp
+      rw [ho] at ho'
+      obtain rfl := Option.some.inj ho'
+      obtain ⟨hps, hig⟩ := List.mem_filter.mp (List.mem_of_getElem? hp)
+      obtain ⟨p', hp', e1, e2, _⟩ := clearVirtual_mem _ _ p hps
+      obtain ⟨t1, t2⟩ := hf.info p' hp'
+      have hig' : p.ignored = false := by simpa using hig
+      exact opFacts_of m codes rcs _ p o hser (by rw [e1]; exact t1) (by rw [e1]; exact t2 (by rw [← e2]; exact hig')) hf.codes hrcs
+  unfold Reader.readSubgraph subN
+  rw [tensors_norm d m codes ps f hf, hf.tlen, l4, l5, l6, l1, ioIndices_idxList, ioIndices_idxList]
+  simp only [Option.getD_some]
+  cases (sgTds d.tensors ps).mapM normTensor with
+  | error e => rfl
+  | ok own =>
+    simp only [bind, Except.bind]
+    rw [parseOperators_norm m rcs ts.length (sgAll d.tensors ps) _ _ hF 0 (ts ++ own)]
+
+theorem readSubgraphs_norm (d : Desc) (m : ModelT) (codes : List Code) (rcs : List Reader.RCode)
+    (hrcs : ∀ (i : Nat) oc, m.opcodes[i]? = some oc → ∃ rc, rcs[i]? = some rc ∧ Reader.parseOpCode oc = .ok rc) :
+    ∀ (subs : List PSub) (sgs : List SubGraphT), List.Forall₂ (SgFacts d m codes) subs sgs → ∀ ts : List TensorD,
+    Reader.readSubgraphs rcs (m.buffers.map Reader.parseBuffer) sgs ts = subsN d.tensors subs ts
+  | [], [], _, _ => rfl
+  | ps :: subs, f :: sgs, h, ts => by
+    cases h with
+    | cons h1 h2 =>
+      unfold Reader.readSubgraphs subsN
+      rw [readSubgraph_norm d m codes rcs ps f h1 hrcs ts]
+      cases subN d.tensors ts ps with
+      | error e => rfl
+      | ok r =>
+        simp only [bind, Except.bind]
+        rw [readSubgraphs_norm d m codes rcs hrcs subs sgs h2 r.2]
+
 end VelaVerif.Tflite.Spec
